@@ -626,3 +626,10 @@ M("m118", "C08", "R8.5", VI, "        return jnp.max(delta) - jnp.min(delta)", "
 MUTANTS.pop()
 M("m119", "C04", "R4.1", RVI, "        new_values = new_values - self.gain\n", "        new_values = new_values - jnp.asarray(self.gain, dtype=jnp.float32)\n" if False else "        new_values = (new_values - self.gain).reshape(-1, 1)\n",
   "RVI iterate silently becomes a column vector (later broadcasting against self.values gives an n x n difference)", survives="no")
+M("m120", "C07", "R7.8", PVI, "        self.value_history = np.zeros((self.period + 1, self.problem.n_states))", "        self.value_history = np.zeros((self.period + 1, self.problem.n_states), dtype=self.values.dtype)",
+  "history buffer takes the dtype of the initial estimates: later float64 iterates are silently cast when stored (integer / float32 initial_value) - from seeded changes C07c / C08c")
+M("m121", "C12", "R12.7", CKPT, "        if checkpoint_frequency is not None:\n            config.checkpoint_frequency = checkpoint_frequency\n",
+  "        config.checkpoint_frequency = checkpoint_frequency or config.checkpoint_frequency\n",
+  "restore(): an explicit checkpoint_frequency=0 override is falsy and dropped - from seeded change C12c")
+M("m122", "C06", "R6.4", SAVI, "        self.key = random.PRNGKey(self.config.random_seed)", "        self.key = random.PRNGKey(self.config.random_seed or 12345)",
+  "seed 0 silently replaced (x or default) - after seeded change C06c")
